@@ -355,8 +355,13 @@ class EncoderLayout:
                     self.bufs[t.id] = self.bufexpr(v)
                     self.vals.pop(t.id, None)
                     return
+                def _add_leaves(e):
+                    return _add_leaves(e.left) + _add_leaves(e.right) if isinstance(e, ast.BinOp) and isinstance(e.op, ast.Add) else [e]
                 if isinstance(v, ast.BinOp) and isinstance(v.op, ast.Add) and any(
-                        isinstance(x, ast.Name) and self.canon(x.id) in self.bufs for x in (v.left, v.right)):
+                        (isinstance(x, ast.Name) and self.canon(x.id) in self.bufs) or
+                        (isinstance(x, ast.Call) and isinstance(x.func, ast.Name) and (x.func.id in ENC_HELPERS or x.func.id in ("bytearray", "bytes")))
+                        for x in _add_leaves(v)):
+                    # a packet assembled by concatenation: bytearray((code,)) + encodeLength(..) + varHeader + payload
                     self.bufs[t.id] = self.bufexpr(v)
                     self.vals.pop(t.id, None)
                     return
